@@ -335,7 +335,83 @@ impl SynCheck {
             }
         }
     }
+    /// Growth monitor: work must grow linearly with repetition. For every repeatable unit u (lexemes, snippets,
+    /// unterminated and almost-terminated openers - none of them adds bracket nesting) the thread CPU time of
+    /// syntax::parse on (u sep)^k and on (u sep)^8k is measured (minimum of three runs each). Linear work gives
+    /// a ratio near 8, quadratic work 64; the verdict needs a ratio >= 40 twice, on runs long enough to measure.
+    fn growth_unit(&self, slice: usize, ctx: &mut Ctx) {
+        let measure = |text: &str| measure_parse_cpu(text);
+        let mut units: Vec<String> = Vec::new();
+        for l in LEXEMES.iter() {
+            units.push(l.to_string());
+        }
+        for u in UNTERMINATED.iter() {
+            units.push(u.to_string());
+        }
+        for u in ["[{ } ]", "[{ }", "[{ ]}", "\"a\\", "/* * /", "/* /", "#else", "#endif", "def D : A [{ } ]", "code c = [{ x } ];", "\"s\" # \"t", "0x", "0b", "!", "$", "..", "a.b.", "x # ", "// c", "/**/", "[{}]"] {
+            units.push(u.to_string());
+        }
+        for s in crate::texts::SNIPPETS.iter() {
+            units.push(s.to_string());
+        }
+        for (i, u) in units.iter().enumerate() {
+            if i % 8 != slice || u.is_empty() {
+                continue;
+            }
+            // nothing that opens a bracket level per repetition (depth is bounded by 256 in the statement);
+            // snippets are balanced statements, `[{` starts a code fragment and is no bracket
+            let opens = u.matches(|c| "([{<".contains(c)).count();
+            let closes = u.matches(|c| ")]}>".contains(c)).count();
+            if opens != closes && !u.starts_with("[{") && !u.contains(" [{") {
+                continue;
+            }
+            if ["if", "foreach", "let", "in", "then", "else", "#ifdef", "#ifndef"].iter().any(|k| u.trim_start().starts_with(k)) && !u.trim_end().ends_with(';') && !u.trim_end().ends_with('}') {
+                continue; // statement prefixes nest statements
+            }
+            for sep in [" ", "\n"] {
+                let piece = format!("{}{}", u, sep);
+                Self::growth_of(&piece, ctx, &measure);
+            }
+        }
+    }
+    fn growth_of(piece: &str, ctx: &mut Ctx, measure: &dyn Fn(&str) -> Option<u64>) {
+        // a repetition count whose parse is long enough to measure
+        let mut k = (16_384 / piece.len()).max(8);
+        for _ in 0..3 {
+            match measure(&piece.repeat(k)) {
+                Some(t) if t < 300_000 => k *= 4,
+                _ => break,
+            }
+        }
+        let mut verdicts = 0;
+        let mut last = (0u64, 0u64, 0usize);
+        for _attempt in 0..2 {
+            let small = piece.repeat(k);
+            let big = piece.repeat(8 * k);
+            ctx.current_text(&big[..(0..=big.len().min(4096)).rev().find(|i| big.is_char_boundary(*i)).unwrap_or(0)]);
+            let (Some(ts), Some(tb)) = (measure(&small), measure(&big)) else { break };
+            ctx.eval();
+            last = (ts, tb, big.len());
+            let ratio = tb as f64 / ts.max(1) as f64;
+            ctx.metric_max("growth_ratio_8x_max", ratio);
+            if ratio >= 40.0 && tb >= 20_000_000 {
+                verdicts += 1;
+            } else {
+                break;
+            }
+        }
+        ctx.feature("growth_units");
+        ctx.nontrivial(fnv64(piece.as_bytes()) ^ 0x9999);
+        if verdicts >= 2 {
+            ctx.violation(
+                "totality:superlinear-growth",
+                format!("repeating {:?}: parse CPU time {} us for k repetitions, {} us for 8k repetitions ({} bytes): ratio {:.0} (linear work gives about 8)", piece, last.0 / 1000, last.1 / 1000, last.2, last.1 as f64 / last.0.max(1) as f64),
+                json!({"kind": "repeat", "piece": piece}),
+            );
+        }
+    }
     fn tower_unit(&self, kind: usize, ctx: &mut Ctx) {
+        self.growth_unit(kind, ctx);
         for depth in 1..=256usize {
             let t = tower(kind, depth);
             self.monitor(&t, ctx);
@@ -374,6 +450,29 @@ impl SynCheck {
     }
 }
 
+fn cpu_ns() -> u64 {
+    let mut ts = libc::timespec { tv_sec: 0, tv_nsec: 0 };
+    unsafe { libc::clock_gettime(libc::CLOCK_THREAD_CPUTIME_ID, &mut ts) };
+    ts.tv_sec as u64 * 1_000_000_000 + ts.tv_nsec as u64
+}
+/// thread CPU time of one syntax::parse, minimum of three runs; None if the parse panics (other monitors' business)
+fn measure_parse_cpu(text: &str) -> Option<u64> {
+    let mut best = u64::MAX;
+    for _ in 0..3 {
+        let t0 = cpu_ns();
+        let r = guard(|| {
+            let p = syntax::parse(text);
+            p.errors().len()
+        });
+        let dt = cpu_ns() - t0;
+        if r.is_err() {
+            return None;
+        }
+        best = best.min(dt);
+    }
+    Some(best)
+}
+
 impl Check for SynCheck {
     fn id(&self) -> &'static str {
         match self.mode {
@@ -404,6 +503,8 @@ impl Check for SynCheck {
     fn replay(&self, case: &Value, ctx: &mut Ctx) {
         if let Some(t) = case["text"].as_str() {
             self.monitor(t, ctx);
+        } else if let (Some("repeat"), Some(piece)) = (case["kind"].as_str(), case["piece"].as_str()) {
+            Self::growth_of(piece, ctx, &|t: &str| measure_parse_cpu(t));
         } else if let Some(u) = case["unit"].as_u64() {
             self.run_unit(u, ctx);
         }
@@ -415,7 +516,7 @@ impl Check for SynCheck {
         );
         match self.mode {
             Mode::Lossless => format!("{}. Oracle per input: leaf tokens tile 0..len in order with no gap/overlap, token.text()==input[range], root.text()==input. non-trivial = input is non-ASCII or its tree holds an Error token, a preprocessor token spanning a skipped region, or a lone '#'; distinct = distinct 64-bit digests of the input text", common),
-            Mode::Totality => format!("{}; (d) 8 kinds of nesting towers at every depth 1..=256 on a 2 MiB stack, nine megabyte-sized runs of non-bracket nesting/repetition (10^6 nested comment openers, 10^5 nested #ifdefs, paste/suffix/statement runs), and unterminated constructs spliced at every token boundary. Oracle per input: no panic, no stack overflow, hook step count <= 64*(bytes+8) (non-progress) and <= K*(tokens+1) with fixed K={}, every SyntaxError has a non-empty message and a range inside the text on char boundaries. non-trivial = input yields >=1 syntax error or is non-ASCII; distinct by digest", common, STEP_K),
+            Mode::Totality => format!("{}; (d) 8 kinds of nesting towers at every depth 1..=256 on a 2 MiB stack, nine megabyte-sized runs of non-bracket nesting/repetition (10^6 nested comment openers, 10^5 nested #ifdefs, paste/suffix/statement runs), and unterminated constructs spliced at every token boundary; (e) GROWTH: for ~300 repeatable pieces (every lexeme, snippet, unterminated and almost-terminated opener such as an open code fragment followed by a spaced-out closer, none adding a bracket level) x 2 separators the thread CPU time of syntax::parse on piece^k and piece^8k (minimum of 3 runs each, k raised until the small run is measurable): linear work gives a ratio near 8 (observed <= 16 on the unchanged tree), quadratic work 64; a ratio >= 40 measured twice with >= 20 ms of CPU is a violation (work hidden inside one lexer call is invisible to the hook step counter). Oracle per input: no panic, no stack overflow, hook step count <= 64*(bytes+8) (non-progress) and <= K*(tokens+1) with fixed K={}, every SyntaxError has a non-empty message and a range inside the text on char boundaries. non-trivial = input yields >=1 syntax error or is non-ASCII; distinct by digest", common, STEP_K),
         }
     }
     fn floors(&self, tier: Tier) -> Vec<(&'static str, u64)> {
@@ -429,6 +530,7 @@ impl Check for SynCheck {
             Mode::Totality => {
                 v.push(("tower_depth_256", 8));
                 v.push(("long_runs", 9));
+                v.push(("growth_units", 250));
                 v.push(("unterminated_at_every_boundary", 1000));
             }
         }
@@ -447,6 +549,7 @@ impl Check for SynCheck {
         vec![
             "rowan's SyntaxNode/SyntaxToken API reports the tree that was built".into(),
             "inputs beyond bracket-nesting depth 256 are out of scope (documented non-goal)".into(),
+            "the growth monitor decides on a ratio of thread CPU times (CLOCK_THREAD_CPUTIME_ID, not wall clock) of the same parse at two sizes; the margin is 2.5x on either side (<= 16 observed for linear work, ~61 for quadratic); growth between linear and quadratic (e.g. n^1.5) is not convicted".into(),
         ]
     }
     fn sanitizer_steps(&self, seed: u64, agg: &mut Agg) {
